@@ -83,6 +83,12 @@ CHECKS = {
    text="TLC enumerates every (builder, wx, wy, wz) for widths 1..5 (all pairs; result widths max, max+1, 2*max, 2*max+3) and equal widths up to 8 and prints the complete truth table of the exact function (23 builders incl. signed/unsigned division and modulo, comparators, mux, bitwise, Hamming); the harness builds each circuit the way ssa/circuitgen.go does (intermediate wires, ID to outputs, ConstPropagate, ShortCircuitXORZero, optional Prune, Compile) for both targets and compares every entry; for operand widths 7..130 (every Karatsuba switch point +-1, 2^k and 2^k+-1) boundary-pattern operands are evaluated on the real circuits and TLC checks each result relationally on base-4096 limbs (z+y = x mod 2^wz, q*y+r = x and r < y, sign rules).",
    note="Trusts TLC, Circuit.Compute as evaluator, the limb arithmetic (self-checked by an ASSUME against TLC's native integers); deviations for result widths above the operand widths and two GMW divider cases are listed in KNOWN_FINDINGS.json.",
    ref="5 C07"),
+ "C08": dict(
+   technique="TLA+ spec Determ.tla (histories of compile operations over processes with shared Params / shared Compiler / fresh state; hidden state memo, cache, map order; invariant Deterministic, each named leak rejected by TLC); its histories (DetermGen.tla) are executed by real compilations in separate OS processes and the recorded (request, circuit hash, SSA hash) events are decided by trace validation (DetermTrace.tla)",
+   level="model_checking",
+   text="TLC checks that in the design no history makes two equal requests (program, input sizes, parameter values) differ, and that letting the Params memo, the Compiler's package cache or the map iteration order reach the output violates it. Simulated histories of 4..8 operations over up to 3 OS processes - fresh Params and Compiler, a new Compiler on the process' shared Params (what apps/garbled does), the process' reused Compiler - are run for programs with unsized multiplications (16/32/64-bit), arithmetic, struct/loop code and programs importing four library packages with package-level variables and constants (thorough: HMAC-SHA256, AES+SHA256), under the default, pruning, GMW and fixed-threshold parameters; every compilation is an event and DetermTrace.tla requires one circuit hash and one SSA hash per request over all histories and processes.",
+   note="Go's map order cannot be forced without changing the code under test: order dependence is sampled by repetition (>= 4 compilations per request in >= 2 processes). Trusts SHA-256 of Circuit.Marshal / Params.SSAOut as the observation.",
+   ref="5 C08"),
  "C09": dict(
    technique="TLA+ spec Opt.tla (ConstPropagate / ShortCircuit / Prune as a transition system over all small gate graphs, invariant SameFunction, exhaustively model-checked) whose graphs (OptGen.tla) are replayed through the real passes for both targets; TLC-generated MPCL programs (Mpcl.tla) compiled under every option combination and compared on every input",
    level="model_checking",
